@@ -94,6 +94,11 @@ def chk_gli(F, E, body, s):
             arm = ft[0] if e[1] == "Ge" else ft[1]
             if body.dominates(arm, s.bb) and "dimensions" in show(e[3]):
                 return True
+    # ... or past an up-front validation of every subscript against its dimension
+    from lib import any_guard
+    for (sb_, none_arm, ops_, ac) in any_guard(F, body):
+        if "Ge" in ops_ and "dimensions" in show(body.expr(ac.args[0])) and (s.bb == none_arm or body.dominates(none_arm, s.bb)):
+            return True
     return False
 
 
@@ -167,7 +172,7 @@ def _fn_call_frames_balanced(F, E):
         return False
     for p in poppers:
         for cb, c in callers_of(F, p):
-            if cb.path in seen and cb.path != ud.path:
+            if cb.path in seen and cb.path != ud.path and not cb.path.startswith(ud.path + "::{closure"):
                 return False
     counts = fn_call_frame_counts(F, ud, poppers)
     if counts is None:
@@ -189,6 +194,18 @@ def fn_call_frame_counts(F, ud, poppers):
         paths = ud.paths(limit=50000)
     except OverflowError:
         return None
+    # `expr.map_err(|e| { self.program().discard..(); e })?`: the closure runs exactly when the result is an error, i.e. on
+    # the paths that leave through the `?` right behind the map_err call
+    err_closure_pops = {}
+    for c in ud.calls():
+        if c.callee.split("::")[-1] == "map_err" and len(c.args) > 1:
+            k = 0
+            for p in sorted(F.bodies):
+                if p.startswith(ud.path + "::{closure") and F.bodies[p].span.line >= c.span.line and \
+                        F.bodies[p].span.line <= getattr(c.span, "eline", c.span.line) + 12:
+                    k += sum(1 for x in F.bodies[p].calls() if x.callee in poppers)
+            if k:
+                err_closure_pops[c.bb] = (c, k)
     out = []
     for path in paths:
         if ud.term(path[-1])["k"] != "return":
@@ -206,6 +223,15 @@ def fn_call_frame_counts(F, ud, poppers):
                 if not pushed:
                     early = True
                 n += 1
+            elif b in err_closure_pops:
+                mc, k = err_closure_pops[b]
+                rest = path[idx + 1:]
+                took_error_exit = any((ud.call_at(x) is not None and ud.call_at(x).callee.endswith("from_residual")) for x in rest[:8]) \
+                    and not any(on_ok_arm(ud, mc, x) for x in rest[:8])
+                if took_error_exit:
+                    if not pushed:
+                        early = True
+                    n += k
         out.append((pushed, n, early))
     return out
 
